@@ -62,6 +62,8 @@ theorem max_lt : constants.MaxPacketBodySize < 4294967296 := by decide
 
 /-! ### readPacket depends only on the flat content -/
 
+theorem readE_false (s : Src) (n : Nat) : s.readE false n = s.read n := by simp [Src.readE]
+
 theorem readPacket_flat (c : Codec) (s : Src) (hne : s.NonEmptyChunks) :
     (readPacket c s).1 = (parseFlat c s.flat).1 ∧
     (readPacket c s).2.flat = (parseFlat c s.flat).2 ∧
@@ -70,7 +72,7 @@ theorem readPacket_flat (c : Codec) (s : Src) (hne : s.NonEmptyChunks) :
   obtain ⟨pending, tail⟩ := s
   cases pending with
   | nil =>
-    simp [readPacket, Src.read, parseFlat, Src.flat, Src.NonEmptyChunks]
+    simp [readPacket, readPacketG, Src.readE, Src.read, parseFlat, Src.flat, Src.NonEmptyChunks]
   | cons ch cs =>
     have hch : ch ≠ [] := hne ch (List.mem_cons_self ..)
     have hcs : ∀ x ∈ cs, x ≠ [] := fun x hx => hne x (List.mem_cons_of_mem _ hx)
@@ -102,8 +104,8 @@ theorem readPacket_flat (c : Codec) (s : Src) (hne : s.NonEmptyChunks) :
         simp [Src.read, s1, constants.PacketTypeSize, h, this]
     have hflat : (Src.flat ⟨(tb :: ch') :: cs, tail⟩) = tb :: s1.flat := by
       rw [hs1flat]; simp [Src.flat]
-    unfold readPacket
-    rw [hread, hflat]
+    unfold readPacket readPacketG
+    rw [readE_false, hread, hflat]
     simp only [parseFlat]
     by_cases hhb : packet.Type.IsHeartbeat tb.toNat
     · simp [hhb, hs1ne, hs1tail]
